@@ -119,6 +119,14 @@ def gen_cases(rng, tier):
         u2, t2 = (u, t) if rng.random() < 0.85 else rng.sample(curs, 2)
         cases.append({'k': 'r', 'a': [u, m1, t, _spell(rng, rate * m1)],
                       'b': [u2, m2, t2, _spell(rng, r2 * m2)]})
+    # a rate and the SAME rate quoted the other way round (exact reciprocals) are different
+    # rates: not equal (and if they were, they would have to hash equal: seeded C19-g)
+    for _ in range(24 if tier == 'quick' else 240):
+        u, t = rng.sample(curs, 2)
+        rate = rng.choice([F(1), F(5, 4), F(2), F(4), F(8), F(100), F(1, 2), F(4, 5)])
+        m1, m2 = rng.choice([1, 10]), rng.choice([1, 100])
+        cases.append({'k': 'r', 'a': [u, m1, t, _spell(rng, rate * m1)],
+                      'b': [t, m2, u, _spell(rng, m2 / rate)]})
     return cases
 
 
